@@ -103,6 +103,30 @@ pub fn child_main() -> ! {
         }
     }
     let reference = std::fs::read_to_string(&cfg.reference_path).unwrap_or_default();
+    // `rustfmt <file>`: the same reading of the command line as the model's (procsim::spawn)
+    let mut file_args: Vec<std::path::PathBuf> = Vec::new();
+    let mut emit_stdout = false;
+    let mut skip_value = false;
+    for arg in std::env::args().skip(1) {
+        if skip_value {
+            skip_value = false;
+            if arg == "stdout" {
+                emit_stdout = true;
+            }
+            continue;
+        }
+        if arg == "--emit=stdout" {
+            emit_stdout = true;
+        } else if matches!(
+            arg.as_str(),
+            "--emit" | "--edition" | "--config" | "--config-path" | "--color" | "--file-lines" | "--print-config" | "--style-edition"
+        ) {
+            skip_value = true;
+        } else if !arg.starts_with('-') {
+            file_args.push(std::path::PathBuf::from(arg));
+        }
+    }
+    let in_place = !file_args.is_empty() && !emit_stdout;
     let mut received: Vec<u8> = Vec::new();
     let mut outbuf: Vec<u8> = Vec::new();
     let mut fmt_failed = false;
@@ -142,13 +166,23 @@ pub fn child_main() -> ! {
             }
             Op::Read(n) => read_some(Some(n), &mut received, stdin_open),
             Op::ReadToEof => read_some(None, &mut received, stdin_open),
-            Op::Format => match std::str::from_utf8(&received)
-                .ok()
-                .and_then(crate::procsim::format_source)
-            {
-                Some(text) => outbuf.extend(text.bytes()),
-                None => fmt_failed = true,
-            },
+            Op::Format => {
+                let mut input = received.clone();
+                for path in &file_args {
+                    if let Ok(bytes) = std::fs::read(path) {
+                        input.extend(bytes);
+                    }
+                }
+                match std::str::from_utf8(&input).ok().and_then(crate::procsim::format_source) {
+                    Some(text) if in_place => {
+                        for path in &file_args {
+                            let _ = std::fs::write(path, text.as_bytes());
+                        }
+                    }
+                    Some(text) => outbuf.extend(text.bytes()),
+                    None => fmt_failed = true,
+                }
+            }
             Op::EmitRef(permille) => {
                 let mut n = reference.len() * (permille.min(1000) as usize) / 1000;
                 while n > 0 && !reference.is_char_boundary(n) {
@@ -158,6 +192,14 @@ pub fn child_main() -> ! {
             }
             Op::EmitGarbage(n) => outbuf.extend(b"%% not rust @@ ".iter().cycle().take(n)),
             Op::EmitNonUtf8(n) => outbuf.extend(std::iter::repeat(0xffu8).take(n)),
+            Op::Flush if in_place => {
+                if !outbuf.is_empty() {
+                    for path in &file_args {
+                        let _ = std::fs::write(path, &outbuf);
+                    }
+                }
+                outbuf.clear();
+            }
             Op::Flush => {
                 if stdout_open && !outbuf.is_empty() {
                     let mut off = 0;
